@@ -54,7 +54,7 @@ def scalarOpSem : OpSem Rat where
   den := scalarDen
   mem := fun _ _ => True
   smul := fun a x => a * x
-  honest := fun _ _ _ => trivial
+  honest := fun _ _ _ _ => trivial
   smul_one := fun x => by ring
   smul_smul := fun a b x => by ring
   mem_smul := fun _ _ _ _ => trivial
@@ -66,7 +66,7 @@ def scalarOpSem : OpSem Rat where
     cases o with
     | leaf u c p => cases c <;> simp_all [isHomothety, isLeafCls, scalarDen, homValue]
     | _ => simp [isHomothety, isLeafCls] at h
-  homogeneous := fun o a x _ => scalarDen_hom o a x
+  homogeneous := fun o a x _ _ => scalarDen_hom o a x
 
 theorem scalarApp_eq (ops : List Op) (x : Rat) : scalarOpSem.toSem.app ops x = scalarApp ops x := by
   induction ops with
@@ -100,5 +100,22 @@ def scalarArithSem : ArithSem Rat where
 /-- it is not the trivial model: a scalar operator of value 3 maps 2 to 6 -/
 example : scalarOpSem.den (mkHomothety 3 default) 2 = 6 := by
   simp [scalarOpSem, scalarDen, mkHomothety, Tensor.scalar]; norm_num
+
+/-- **Structural well-formedness alone does not make the registered rules sound** (finding F13 in the scalar
+model): `InverseBinaryRule` rewrites `InverseOperator(o) @ o` to the empty chain for every `o`, here the scalar
+operator `o = 3·`, whose lazy inverse the scalar model (which declares no operand invertible) interprets as the
+identity.  Both operands are structurally well formed and the pair is well typed, but the empty chain denotes
+`x ↦ x`, not `x ↦ 3 x`.  Hence `Sem.RuleSound` (soundness on all `StructOK` operands) is still too strong for
+the registry; the rules are sound on `WTExpr A.invertible …` operands (FuraxProofs/Lemmas/RuleSound.lean). -/
+theorem scalar_inverseBinaryRule_not_RuleSound : ¬ scalarOpSem.toSem.RuleSound inverseBinaryRule := by
+  intro h
+  let o : Op := .leaf 1 .homothety { inS := default, outS := default, vals := Tensor.scalar 3 }
+  have hf : inverseBinaryRule.fire (.wrap 2 .inverse o) o = .ok (some []) := by
+    simp [inverseBinaryRule, o, isLazyInverse, operator?, same, Op.uid, Op.beq]
+  have hok : StructOK (.wrap 2 .inverse o) := by
+    simp [StructOK, WTExpr, WrapOK, WrapCls.isLazy, o, Op.inS, Op.outS, squareLeaf]
+  have hoko : StructOK o := StructOK_leaf _ _ _
+  have := (h (.wrap 2 .inverse o) o [] hok hoko hf (by simp [o, Op.inS, Op.outS])).2.2 1 trivial
+  simp [Sem.app, scalarOpSem, OpSem.toSem, scalarDen, o, Tensor.scalar] at this
 
 end Furax
